@@ -260,6 +260,63 @@ def ob_classical_dispatch(A, B, X, Y):
                       functions=["NonlocalGame.classical_value (dispatch of strategy indices; process_iteration as uninterpreted i -> t_i; "
                                  "multiprocessing.Pool as in-process stub)"])
 
+class LargeGameValue(Task):
+    """classical_value of a GENERIC large game (0/1 predicate and dyadic weights from a seeded generator; no perfect strategy) through the
+    public API with nothing stubbed, against the harness' own exhaustive enumeration of one player's answer functions (the other
+    player's best response is a per-question maximum, which is exact).  Complements the dispatch obligation, whose witnesses are
+    games with a perfect strategy: an implementation that maximises per question over a block of strategies over-estimates only
+    on games where no single strategy is best for every question (round-6 seed)."""
+    engine = "concrete-instance (real function vs exhaustive enumeration written in the harness)"
+    weight = 40
+
+    def __init__(self, A, B, X, Y, seed0):
+        super().__init__("classical_value.large_generic_game_equals_exhaustive_enumeration", {"alice_out": A, "bob_out": B, "alice_in": X, "bob_in": Y,
+                                                                                             "enumerated_strategies": min(A ** X, B ** Y), "generator_seed": seed0})
+        self.shape, self.seed0 = (A, B, X, Y), seed0
+
+    def _game(self):
+        A, B, X, Y = self.shape
+        rng = np.random.default_rng(self.seed0)
+        V = rng.integers(0, 2, size=(A, B, X, Y)).astype(float)
+        w = rng.integers(1, 5, size=(X, Y)).astype(float)
+        return w / w.sum(), V
+
+    def _expected(self, p, V):
+        A, B, X, Y = self.shape
+        W = p[None, None, :, :] * V
+        if A ** X > B ** Y:                                   # enumerate Bob instead: exchange the roles
+            W = W.transpose(1, 0, 3, 2)
+            A, B, X, Y = B, A, Y, X
+        best = -1.0
+        N = A ** X
+        for start in range(0, N, 4096):
+            idx = np.arange(start, min(N, start + 4096))
+            digs = np.stack([(idx // A ** (X - 1 - j)) % A for j in range(X)], axis=1)            # (n, X)
+            S = np.zeros((len(idx), B, Y))
+            for x in range(X):
+                S += W[digs[:, x], :, x, :]
+            best = max(best, float(S.max(axis=1).sum(axis=1).max()))
+        return best
+
+    def _run(self, rec, seed):
+        import multiprocessing
+        multiprocessing.current_process()._config["daemon"] = False
+        p, V = self._game()
+        want = self._expected(p, V)
+        got = float(NonlocalGame(p.copy(), V.copy()).classical_value())
+        rec["reachable"] = True
+        if abs(got - want) <= 1e-9:
+            rec["status"] = "discharged"
+        else:
+            rec["status"] = "violation"
+            rec["violation"] = {"source": "real classical_value differs from exhaustive enumeration (reproduced)", "inputs": self.cfg, "actual": got, "expected": want}
+
+    def replay(self, rp):
+        p, V = self._game()
+        got, want = float(NonlocalGame(p.copy(), V.copy()).classical_value()), self._expected(p, V)
+        print({"actual": got, "expected": want})
+        return abs(got - want) <= 1e-9
+
 
 def ob_product(A, B, X, Y, reps_type="int"):
     cfg = {"alice_out": A, "bob_out": B, "alice_in": X, "bob_in": Y, "reps": 2}
@@ -857,6 +914,7 @@ def obligations(tier):
                 obs.append(ob_classical(A, B, X, Y))
     for sh in [(2, 2, 10, 10), (6, 6, 4, 4), (6, 3, 4, 7), (10, 10, 3, 3), (2, 2, 3, 9), (3, 2, 7, 11)] + ([(3, 6, 7, 4), (2, 2, 11, 11), (4, 5, 5, 5), (7, 2, 4, 12)] if T else []):
         obs.append(ob_classical_dispatch(*sh))
+        obs.append(LargeGameValue(*sh, seed0=700 + sum(sh)))
     for sh in [(2, 2, 2, 2), (2, 3, 1, 2), (3, 2, 2, 1)] + ([(2, 3, 2, 2)] if T else []):
         obs.append(ob_product(*sh))
     obs.append(ob_product(2, 2, 2, 2, "int64"))
